@@ -647,7 +647,7 @@ int main(int argc, char** argv)
     E.assume("the universe is one fixed dependency DAG (one child with three parents, one parent depending on another, one conflict pair, one same-txid twin); packages over other topologies (grandparents beyond one level, 25-transaction packages through ProcessNewPackage) are not enumerated");
     E.sample("signatures: " + flags.substr(0, 300));
     if (!incomplete && !vx::rep().violations) {
-        for (const char* need : {"result:0", "result:1", "result:2", "result:3", "illformed:duplicates", "illformed:unsorted", "illformed:conflict", "illformed:not-child-with-parents", "package-accepted", "cpfp-profile-accepted"})
+        for (const char* need : {"result:0", "result:1", "result:2", "result:3", "illformed:duplicates", "illformed:unsorted", "illformed:conflict", "illformed:not-child-with-parents", "package-accepted", "cpfp-profile-accepted", "evicted-after-acceptance(mempool full)", "pool-transactions-evicted-or-replaced"})
             if (!sig_flags.count(need)) { printf("HARNESS-ERROR property=C29 vacuous: outcome class '%s' never occurred (%s)\n", need, flags.c_str()); return 2; }
     }
     return vx::finish();
